@@ -933,6 +933,8 @@ class World:
         self.host = PluginHost(specs, self.regdir)
         self.peltool = None
         self.fresh_per_run = False
+        self.path_style = "abs"      # how directory / file arguments are spelled: abs | rel | slash
+        self.rel_dot = False
         self._saved_path = None
         self._saved_meta = None
 
@@ -1032,8 +1034,20 @@ class World:
     # ---- run one CLI invocation in-process
     def run(self, argv, order=None, faults=None, file_bufsize=None, stdout_bufsize=None,
             exit_flush=True, stdout_encoding="utf-8"):
-        """argv: list of str where '@/x' is replaced by <root>/x."""
-        real = [self.path(a[2:]) if a.startswith("@/") else (self.root if a == "@" else a) for a in argv]
+        """argv: list of str where '@/x' is replaced by <root>/x (absolute; with path_style 'rel' relative to the
+        current directory, which is then the root; with 'slash' directories get a trailing '/')."""
+        def tr(a):
+            if a == "@":
+                return self.root
+            if not a.startswith("@/"):
+                return a
+            p = self.path(a[2:])
+            if self.path_style == "rel":
+                p = os.path.join(".", a[2:]) if self.rel_dot else a[2:]
+            if self.path_style == "slash" and os.path.isdir(self.path(a[2:])):
+                p += "/"
+            return p
+        real = [tr(a) for a in argv]
         if self.bmc:
             # on the BMC there is no -p: the PEL directory is the built-in default, its archive is reached with -A
             out_argv, i = [], 0
@@ -1045,7 +1059,7 @@ class World:
                     continue
                 out_argv.append(argv[i])
                 i += 1
-            real = [self.path(a[2:]) if a.startswith("@/") else (self.root if a == "@" else a) for a in out_argv]
+            real = [tr(a) for a in out_argv]
         if self.fresh_per_run:
             # every CLI invocation is its own process: nothing survives from the previous one
             self.fresh_modules()
@@ -1059,6 +1073,9 @@ class World:
         saved = (sys.argv, sys.stdout, sys.stderr)
         sys.argv = ["peltool.py"] + real
         sys.stdout, sys.stderr = out, err
+        saved_cwd = os.getcwd()
+        if self.path_style == "rel":
+            os.chdir(self.root)
         fs.active = True
         try:
             try:
@@ -1086,6 +1103,8 @@ class World:
             res.leaked = fs.end_op()
         finally:
             fs.active = False
+            if self.path_style == "rel":
+                os.chdir(saved_cwd)
             sys.argv, sys.stdout, sys.stderr = saved
         res.crashed = fs.ev.crashed
         # the scratch path is process specific: never let it reach oracles, logs or digests
